@@ -4,6 +4,7 @@ import (
 	"encoding/json"
 	"fmt"
 	"sort"
+	"strconv"
 	"strings"
 	"testing"
 	"time"
@@ -128,10 +129,25 @@ func (p *jparser) value(depth int) (jval, error) {
 				return v, nil
 			}
 			if ch == '\\' {
-				v.esc = true
 				if p.i+1 >= len(p.b) {
 					return jval{}, fmt.Errorf("escape eof")
 				}
+				// RFC 8259 escapes of ASCII characters spell the same string and are decoded here; every
+				// other escape (non-ASCII code points, surrogates, malformed ones) stays unsettled
+				simple := map[byte]byte{'"': '"', '\\': '\\', '/': '/', 'b': 8, 'f': 12, 'n': 10, 'r': 13, 't': 9}
+				if d, ok := simple[p.b[p.i+1]]; ok {
+					sb.WriteByte(d)
+					p.i += 2
+					continue
+				}
+				if p.b[p.i+1] == 'u' && p.i+6 <= len(p.b) {
+					if cp, err := strconv.ParseUint(string(p.b[p.i+2:p.i+6]), 16, 32); err == nil && cp < 0x7f && !strings.ContainsAny(string(p.b[p.i+2:p.i+6]), "+-") {
+						sb.WriteByte(byte(cp))
+						p.i += 6
+						continue
+					}
+				}
+				v.esc = true
 				p.i += 2
 				sb.WriteByte('?')
 				continue
@@ -168,9 +184,10 @@ type chanID struct{ port, channel string }
 
 // classifyMetadata reads metadata as the documented structure
 // {"perm_channels":[{"port_id":"…","channel_id":"…"},…]}.
-//   documented:   exact keys, right types -> the listed channels
-//   undocumented: certainly not that structure (not a JSON object, unknown key, wrong type, trailing data, no perm_channels key)
-//   grey:         anything the documentation does not settle (differently-cased or duplicate keys, escapes, parser disagreement)
+//
+//	documented:   exact keys, right types -> the listed channels
+//	undocumented: certainly not that structure (not a JSON object, unknown key, wrong type, trailing data, no perm_channels key)
+//	grey:         anything the documentation does not settle (differently-cased or duplicate keys, escapes, parser disagreement)
 func classifyMetadata(md []byte) (class string, list []chanID) {
 	p := &jparser{b: md}
 	v, err := p.value(0)
@@ -280,7 +297,7 @@ func genMetadata(rt *rapid.T) (string, []byte) {
 		return "[" + strings.Join(parts, sep) + "]"
 	}
 	kind := drawWeighted(rt, "mdkind", []weighted{{"valid", 12}, {"empty", 2}, {"plain-json", 2}, {"unknown-top", 2}, {"unknown-nested", 2}, {"dup-key", 2}, {"case-key", 2}, {"case-key-both", 1},
-		{"nested-case", 2}, {"wrong-type", 3}, {"null", 1}, {"array-top", 1}, {"string-top", 1}, {"trailing", 2}, {"non-json", 2}, {"big", 1}, {"legacy-bytes", 1}})
+		{"nested-case", 2}, {"escaped-key", 2}, {"escaped-value", 1}, {"wrong-type", 3}, {"null", 1}, {"array-top", 1}, {"string-top", 1}, {"trailing", 2}, {"non-json", 2}, {"big", 1}, {"legacy-bytes", 1}})
 	switch kind {
 	case "valid":
 		return kind, []byte(`{"perm_channels":` + list() + `}`)
@@ -300,6 +317,12 @@ func genMetadata(rt *rapid.T) (string, []byte) {
 		return kind, []byte(`{"` + rapid.SampledFrom([]string{"Perm_Channels", "PERM_CHANNELS", "perm_Channels"}).Draw(rt, "ck") + `":` + list() + `}`)
 	case "case-key-both":
 		return kind, []byte(`{"perm_channels":` + list() + `,"PERM_CHANNELS":` + list() + `}`)
+	case "escaped-key":
+		// the documented key spelled with a JSON escape: the same key for every JSON reader
+		return kind, []byte(`{"` + rapid.SampledFrom([]string{`perm\u005fchannels`, `\u0070erm_channels`, `perm_channel\u0073`, `perm\u005Fchannels`}).Draw(rt, "ek") + `":` + list() + `}`)
+	case "escaped-value":
+		c := c19Channels[rapid.IntRange(0, len(c19Channels)-1).Draw(rt, "ch")]
+		return kind, []byte(`{"perm_channels":[{"port_id":"` + strings.Replace(c.port, "t", `\u0074`, 1) + `","channel_id":"` + strings.Replace(c.channel, "-", `\u002d`, 1) + `"}]}`)
 	case "nested-case":
 		return kind, []byte(`{"perm_channels":[{"Port_ID":"transfer","channel_id":"channel-1"}]}`)
 	case "wrong-type":
